@@ -3,3 +3,4 @@ import RactorModel.Extracted
 import RactorModel.Props.C18
 import RactorModel.Props.C02
 import RactorModel.Props.C07
+import RactorModel.Props.C06
